@@ -51,6 +51,9 @@ pub enum SeedSpec {
     /// many HEVC traks whose parameter-set lengths are each small enough for their box but chain
     /// from trak to trak into planted data (every unit individually bounded, the sum is not)
     HopChain { seed: u64 },
+    /// one small box with a count field set to a few thousand, replicated a few thousand times
+    /// as siblings and followed by as many small filler boxes inside the same parent
+    SiblingWalk { seed: u64 },
 }
 
 impl SeedSpec {
@@ -73,6 +76,7 @@ impl SeedSpec {
             SeedSpec::BigTable { .. } => "big_table",
             SeedSpec::MetaAll { .. } => "meta_all",
             SeedSpec::HopChain { .. } => "hop_chain",
+            SeedSpec::SiblingWalk { .. } => "sibling_walk",
         }
     }
 }
@@ -1007,6 +1011,7 @@ pub fn build(spec: &SeedSpec) -> SeedImage {
         SeedSpec::BigTable { seed } => SeedImage { bytes: big_table_image(*seed), init_len: None },
         SeedSpec::MetaAll { seed } => SeedImage { bytes: meta_all_image(*seed), init_len: None },
         SeedSpec::HopChain { seed } => SeedImage { bytes: hop_chain_image(*seed), init_len: None },
+        SeedSpec::SiblingWalk { seed } => SeedImage { bytes: sibling_walk_image(*seed), init_len: None },
         SeedSpec::Scale { seed } => {
             let (b, l) = scale_image(*seed);
             SeedImage { bytes: b, init_len: l }
@@ -1035,6 +1040,9 @@ pub fn gen_spec(r: &mut Rng) -> SeedSpec {
     }
     if r.chance(1, 500) {
         return SeedSpec::HopChain { seed: r.below(1 << 30) };
+    }
+    if r.chance(1, 300) {
+        return SeedSpec::SiblingWalk { seed: r.below(1 << 30) };
     }
     if r.chance(1, 300) {
         return SeedSpec::BigTable { seed: r.below(1 << 30) };
@@ -1742,6 +1750,75 @@ pub fn hop_chain_image(seed: u64) -> Vec<u8> {
     out
 }
 
+/// "Sibling walk" image. A small box B of a valid image (dref, stsd, elst, stts, url, hdlr, ...)
+/// gets one of its first three words - where count fields live - set to about K + F, optionally
+/// its first child's type replaced by an unknown one, and is then replicated K times as siblings,
+/// followed by F small filler boxes inside the same parent (8-byte `free` boxes, copies of B's
+/// first child, or copies of B). A parser whose count-driven loop is not bounded by the box walks
+/// from each copy over all later copies and fillers: K x (K + F) steps on (K + F) x small bytes.
+/// K and F are a few thousand so that the quadratic term passes the linear budgets.
+pub fn sibling_walk_image(seed: u64) -> Vec<u8> {
+    let mut r = Rng::new(seed ^ 0x51B1);
+    let mut img = if r.chance(1, 2) { meta_all_image(r.below(4)) } else { mux_bytes(&small_scenario(r.below(4096))) };
+    let nodes = walk(&img);
+    let cands: Vec<usize> = (0..nodes.len())
+        .filter(|i| {
+            let n = &nodes[*i];
+            n.depth >= 2 && n.hdr == 8 && n.size >= 16 && n.size <= 220 && n.end() <= img.len() && !n.is(b"free") && !n.is(b"skip")
+        })
+        .collect();
+    if cands.is_empty() {
+        return img;
+    }
+    let bi = cands[r.usize_below(cands.len())];
+    let b = &nodes[bi];
+    let mut bb = img[b.start..b.end()].to_vec();
+    let k = 1500 + r.below(2000) as usize;
+    let f = 1500 + r.below(2000) as usize;
+    // the lie: a count of about "everything that follows" in one of the first three words
+    let word = 8 + 4 * r.below(3) as usize;
+    let v = match r.below(4) {
+        0 => f as u32,
+        1 => (k + f) as u32,
+        2 => (k + f) as u32 / 2,
+        _ => (k + f) as u32 + 1 + r.below(3) as u32,
+    };
+    if word + 4 <= bb.len() && r.chance(7, 8) {
+        bb[word..word + 4].copy_from_slice(&v.to_be_bytes());
+    }
+    // first child inside B (walker's view, or a header found behind the usual 8 bytes of
+    // version/flags + count of a table-like container)
+    let child_at = nodes.iter().position(|c| c.parent == Some(bi)).map(|ci| nodes[ci].start - b.start).or(if bb.len() >= 24 { Some(16) } else { None });
+    let mut child: Option<Vec<u8>> = None;
+    if let Some(ca) = child_at {
+        if ca + 8 <= bb.len() {
+            let cs = be32(&bb, ca) as usize;
+            if cs >= 8 && ca + cs <= bb.len() {
+                if r.chance(1, 2) {
+                    let t: [u8; 4] = *r.pick(&[*b"urn ", *b"alis", *b"free", *b"zzzz"]);
+                    bb[ca + 4..ca + 8].copy_from_slice(&t);
+                }
+                child = Some(bb[ca..ca + cs].to_vec());
+            }
+        }
+    }
+    let filler: Vec<u8> = match (r.below(4), &child) {
+        (0, Some(c)) => c.clone(),
+        (1, _) => bb.clone(),
+        _ => bx(b"free", &[]),
+    };
+    let mut run = Vec::with_capacity(k * bb.len() + f * filler.len());
+    for _ in 0..k {
+        run.extend_from_slice(&bb);
+    }
+    for _ in 0..f {
+        run.extend_from_slice(&filler);
+    }
+    let (at, len, owner) = (b.start, b.size, b.parent);
+    splice(&mut img, &nodes, owner, at, len, &run);
+    img
+}
+
 /// "Descriptor chain" image: one AAC track whose sample table holds K sample-description boxes
 /// (a parser keeps the last), each with an esds whose ES descriptor declares a length reaching
 /// far beyond the box, into zero filler behind the movie header. Descriptor walking costs a few
@@ -1988,7 +2065,7 @@ mod shape_tests {
     /// share of them opens, so that the deep / long structures are really traversed.
     #[test]
     fn nest_and_big_table_images_are_well_formed() {
-        for (name, f) in [("nest", nest_image as fn(u64) -> Vec<u8>), ("big_table", big_table_image as fn(u64) -> Vec<u8>)] {
+        for (name, f) in [("nest", nest_image as fn(u64) -> Vec<u8>), ("big_table", big_table_image as fn(u64) -> Vec<u8>), ("sibling_walk", sibling_walk_image as fn(u64) -> Vec<u8>)] {
             let mut opened = 0;
             let n = 60;
             let mut slowest = std::time::Duration::ZERO;
